@@ -43,6 +43,8 @@ def run(ctx):
     from rules import tables
     tables.bit_counts_round_up(ctx, P)
     derived_key_sized_by_the_cipher_in_use(ctx, P)
+    from rules import c11 as _c11
+    _c11.hash_tables(ctx, P)        # digest_size() decides how many S2K hash contexts are run and where each output is cut
     from rules.tables import rfc_id_tables
     rfc_id_tables(ctx, P, only=r'SymmetricKeyAlgorithm|AeadAlgorithm|HashAlgorithm|PublicKeyAlgorithm')
     secret_key_aead(ctx, P)
